@@ -1127,8 +1127,14 @@ impl CanonicalizeContext {
 				}
 
 				// could have deleted all the children -- same as an empty mrow
-				if element_name == "mrow" && children.is_empty() && mathml.attribute(INTENT_ATTR).is_none() {
-					return if parent_requires_child {Some( CanonicalizeContext::make_empty_element(mathml) )} else {None};
+				if element_name == "mrow" && children.is_empty() {
+					if mathml.attribute(INTENT_ATTR).is_none() {
+						return if parent_requires_child {Some( CanonicalizeContext::make_empty_element(mathml) )} else {None};
+					} else {
+						// keep the intent, but create some content so that speech rules don't require special cases
+						mathml.append_child( CanonicalizeContext::create_empty_element(&mathml.document()) );
+						return Some(mathml);
+					}
 				}
 
 				// could have deleted children so only one child remains -- need to lift it
